@@ -48,7 +48,8 @@ class C17(RecorderProp):
             'draw source; seeded histories with the recorder\'s OWN Random(seed): the same seed twice, pairs differing only in '
             'operation content and outcome, mixed classes (one an unconfigured subclass of a configured class) with forcing in one run; '
             'storage-level sampling of the S3 cassette with a size-based calculator, ordered / random-order lookups through the same '
-            'cassette between the saves (they consume nothing of the sampling stream); non-trivial = a recording scope was opened; distinct = distinct canonical case')
+            'cassette between the saves (they consume nothing of the sampling stream), the size handed to the calculator against the stored size, '
+            'the cassette\'s own seeded generator in two interpreters; non-trivial = a recording scope was opened; distinct = distinct canonical case')
     N = {'quick': 3, 'thorough': 40}
     HIST = {'quick': 300, 'thorough': 2000}
     TIME_BUDGET = {'quick': 240, 'thorough': 3000}
